@@ -282,4 +282,18 @@ Definition judge (op : bytes) (args : list val) (out : val) : verdict :=
     match args with
     | [VInt s] => if in_i32 s then judge_eq (if off_ok s then VInt (- s) else VPanic) out else JSkip
     | _ => JSkip end
+  else if op_is op "z.mk" then
+    match args with
+    | [o; n] => match off_of_arg o, naive_of_arg n with
+                | Some off, Some (u, f) => judge_eq (VTup [enc_z u f off; VInt off; enc_z u f off]) out
+                | _, _ => JSkip end
+    | _ => JSkip end
+  else if op_is op "z.pfromlocal" then
+    (* the panicking construction from a wall-clock reading: the instant is the reading minus the
+       offset; PANIC exactly when that instant is outside the supported range *)
+    match args with
+    | [o; n] => match off_of_arg o, naive_of_arg n with
+                | Some off, Some (l, f) => judge_eq (if in_rng (l - off) then enc_z (l - off) f off else VPanic) out
+                | _, _ => JSkip end
+    | _ => JSkip end
   else JSkip.
